@@ -33,6 +33,14 @@ def instances(tier, arr_ob="O2"):
     # merging the records of a second input into an existing object, then releasing both: nothing remains (C04's instances)
     from vk.props import C04
     out += [dataclasses.replace(i, ob="O3") for i in C04.instances(tier) if i.name.startswith(("merge_", "kalign_run_orch"))]
+    # the k-means driver's keep-the-best loop (>= 100 sequences) with the numeric parts replaced by arbitrary scores
+    for n in ((100,) if tier == "quick" else (100, 101, 160)):
+        out.append(Inst(ob="O3", name="kmeans_best_n%d" % n, harness="c16_kmeans.c", defs={"VK_N": n, "NOHAVE_AVX2": None}, srcs=[], models=["models/vin.c", "models/msg.c", "models/stopwatch_stub.c"],
+                        gi_args=["--replace-calls", "split2:vk_split2", "--replace-calls", "d_estimation:vk_d_estimation", "--replace-calls", "upgma:vk_upgma", "--replace-calls", "free_2d_array_float:vk_free_2d"],
+                        flags=["--memory-leak-check"], leak_check=True, replay="solver", unwind=max(n + 2, 45), nb=1, nf=40, timeout=900, mem_gb=8, solver="cadical",
+                        funcs=["bisecting_kmeans", "alloc_kmeans_result", "free_kmeans_results", "alloc_node"],
+                        bound="%d samples, up to 40 restarts with arbitrary finite scores; split / distance / UPGMA replaced by stand-ins" % n,
+                        desc="k-means driver keeps the best split and releases every other result", cost=60))
     # O1: --nondet-static twins of unit harnesses (a cache / static scratch buffer added to these units would be visible)
     from vk.props import C09, C11, C10
     twins = [i for i in C09.instances("quick") if i.name in ("param_dna_t0", "param_prot_t3")]
